@@ -136,10 +136,10 @@ func (e *End) Read(b []byte) (int, error) {
 				return 0, nil
 			}
 			n := copy(b, e.inbox[0])
-			if n < len(e.inbox[0]) {
+			if n < len(e.inbox[0]) && e.MaxDatagram == 0 {
 				e.inbox[0] = e.inbox[0][n:]
 			} else {
-				e.inbox = e.inbox[1:]
+				e.inbox = e.inbox[1:] // a datagram socket hands out one datagram per read; what does not fit the buffer is lost
 			}
 			e.mu.Unlock()
 			return n, nil
